@@ -99,7 +99,9 @@ CLAIMS = {
     "C05": dict(
         text=("Props/C05.lean: executor_is_map - the model of the vectorised binary executor (physical buffer + validity by logical row + selection; all-valid fast path and per-row validity path) "
               "returns liftNull f (a[i]) (b[i]) for every selected row, for every vector shape (flat, constant, dictionary-selected, any validity) and any batch selection, so the value cannot depend on the "
-              "representation and both paths agree; Kleene truth tables on the whole domain. Tie: exhaustive truth tables and small-domain operator tables in column / constant-operand / literal-only form with "
+              "representation and both paths agree; eval_spec - the code-shaped CASE loop (Core/CaseExpr.lean: shrinking selection, per-arm evaluation on the TRUE rows only, scatter to dense output positions, ELSE on the rest) "
+              "equals 'first TRUE arm, else ELSE' mapped over the selected rows for every arm list, batch and selection (loop invariant evalLoop_spec by induction over the arms); the pinned commit's scatter to "
+              "physical row indices is wrong (witness; repaired finding F16); Kleene truth tables on the whole domain. Tie: exhaustive truth tables and small-domain operator tables in column / constant-operand / literal-only form with "
               "the optimizer on and off, and random typed expressions each evaluated in nine contexts (column, under a selection, CASE branch, second WHEN, after AND short-circuit, duplicated for CSE, join "
               "condition, WHERE, literal-only) against Sem.evalE."),
         note=TB + "Sem.evalE is the definition of each operator; function families with their own checks: integer/decimal arithmetic (C12), casts (C13), strings/LIKE (C20); float functions are not modelled.",
